@@ -4,12 +4,35 @@ from contracts import bufferedfile
 ID = "C42"
 F = "paramiko.file.BufferedFile."
 TARGETS = [F + "read", F + "_write_all", F + "flush", F + "write", F + "readline"]
-REPLAY = {"*": "c42.replay_file"}
+REPLAY = {"*": "c42.replay_file", "sendall": "c25.replay_sendall", "_send_all": "c25.replay_sendall", "Channel": "c25.replay_sendall"}
 MAX_PATHS = 20000
 
 
 def setup(E):
     bufferedfile.declare(E)
+    # the channel-backed wrappers: ChannelFile._write / ChannelStderrFile._write hand the whole block to sendall and report
+    # all of it written; sendall / sendall_stderr (own bodies, contract shared with C25) return only after every byte of the
+    # block went to send() in order - a block handed over in part would be a hole in the stream the reader sees
+    from contracts import channel
+    E2 = type(E)()
+    channel.declare_c19(E2)
+    channel.declare_c25(E2)
+    for cls in ("ChannelFile", "ChannelStderrFile"):
+        E2.declare_class("paramiko.channel." + cls, {"channel": "obj:paramiko.channel.Channel"})
+    which = {"ChannelFile": "sendall", "ChannelStderrFile": "sendall_stderr"}
+    for cls in ("ChannelFile", "ChannelStderrFile"):
+        E2.contract("paramiko.channel.%s._write" % cls, params={"data": "bytes"}, requires={"fits": "len(data) < 2**31"},
+                    ensures={"the_whole_block_went_to_the_channel_in_order": "ghost('delivered') == old(ghost('delivered')) + data",
+                             "and_all_of_it_is_reported_written": "result == len(data)"},
+                    raises={"OSError": "True", "TimeoutError": "True", "EOFError": "True", "SSHException": "True"}, returns="int")
+    global TARGETS
+    TARGETS = [t for t in TARGETS if not (isinstance(t, tuple) and t[1] == "channel-backed")]
+    for qn in ["paramiko.channel.ChannelFile._write", "paramiko.channel.ChannelStderrFile._write",
+               "paramiko.channel.Channel.sendall", "paramiko.channel.Channel.sendall_stderr"]:
+        TARGETS.append((qn, "channel-backed", dict(E2.contracts[qn], **{
+            "+replace": True, "+contracts": {k: v for k, v in E2.contracts.items() if k != qn},
+            "+fields": {k: dict(d["fields"]) for k, d in E2.classdecl.items()},
+            "+engine": {"monitors": E2.monitors, "ghost_types": dict(E2.ghost_types), "inline_ok": set(E2.inline_ok)}})))
 
 
 CLAIMED = True
@@ -26,5 +49,5 @@ LEVEL_NOTE = ("Scope of readline: binary files without the deprecated universal-
               "byte-exact statement does not apply) and no pending carriage return. Text mode decoding (util.u) is total for "
               "valid UTF-8 and not part of the statement. 'Line-buffered writes are delivered through each newline "
               "immediately' is replayed natively by the harness (rfind-based split) and covered here by the conservation "
-              "clause only. ChannelFile / SFTPFile supply _read / _write; their own contracts are C21/C26 and C27.")
+              "clause only. ChannelFile / SFTPFile supply _read / _write; their own contracts are C21/C26 and C27; ChannelFile._write / ChannelStderrFile._write and the sendall loops under them are verified here too (contract shared with C25).")
 TECHNIQUE = "deductive: definitional loop invariants over ghost streams on the real AST, quantified newline clauses, z3/cvc5"
